@@ -315,6 +315,35 @@ func (s *slicer) fromCall(c *ssa.Call, res int, stack []*ssa.Call, field int) bo
 	if cc.IsInvoke() && s.derives(cc.Value, stack, -1) {
 		return true
 	}
+	// a stateful writer (hash.Hash, bytes.Buffer): what h.Sum() / buf.Bytes() hands out
+	// depends on everything written into the same object by the other calls on it
+	var recv ssa.Value
+	if cc.IsInvoke() {
+		recv = cc.Value
+	} else if g := cc.StaticCallee(); g != nil && g.Signature.Recv() != nil && len(cc.Args) > 0 {
+		recv = cc.Args[0]
+	}
+	if recv != nil && recv.Referrers() != nil {
+		for _, r := range *recv.Referrers() {
+			oc, ok := r.(ssa.CallInstruction)
+			if !ok || oc == ssa.CallInstruction(c) {
+				continue
+			}
+			occ := oc.Common()
+			same := occ.IsInvoke() && occ.Value == recv || !occ.IsInvoke() && len(occ.Args) > 0 && occ.Args[0] == recv
+			if !same {
+				continue
+			}
+			for i, a := range occ.Args {
+				if !occ.IsInvoke() && i == 0 {
+					continue
+				}
+				if s.derives(a, stack, -1) {
+					return true
+				}
+			}
+		}
+	}
 	for _, a := range cc.Args {
 		if s.derives(a, stack, -1) {
 			return true
